@@ -11,8 +11,8 @@
 //   1. the pool is built sequentially.  No hash / str / compare is applied to the pool elements
 //      themselves, so their lazily cached hash_ is first written by the concurrent phase;
 //   2. the raw dumps (no hashing involved) and reference counts of the pool are recorded;
-//   3. the threads are created, meet at a barrier, copy the pool registers (concurrent refcount
-//      traffic), run their statement lists and record one JSON string per statement;
+//   3. T persistent worker threads are released together from a barrier, copy the pool registers
+//      (concurrent refcount traffic), run their statement lists and record one JSON string per statement;
 //   4. after the join: dumps and reference counts again;
 //   5. every list is re-executed sequentially on the main thread;
 //   6. the pool is rebuilt from scratch sequentially and str / hash / eq of old versus rebuilt
@@ -25,7 +25,9 @@
 #include "sexp.cpp" // Reader, Node, eval (internal linkage), val_json, classify_exception
 
 #include <atomic>
+#include <condition_variable>
 #include <iostream>
+#include <mutex>
 #include <thread>
 
 using namespace vd;
@@ -49,6 +51,74 @@ OP(spin)
 
 namespace
 {
+
+// Persistent worker threads: creating threads under ThreadSanitizer is expensive, and a condition
+// variable barrier does not burn the (shared) machine the way a yield loop does.  All workers of a
+// round are released by one notify_all, i.e. they start their lists at the same moment; the only
+// synchronisation between them is this start barrier and the completion count.
+class Workers
+{
+    std::mutex m;
+    std::condition_variable cv_go, cv_done;
+    std::vector<std::thread> th;
+    std::function<void(size_t)> job;
+    size_t round = 0, active = 0, pending = 0;
+    bool quit = false;
+
+    void loop(size_t id)
+    {
+        size_t seen = 0;
+        for (;;) {
+            std::function<void(size_t)> j;
+            {
+                std::unique_lock<std::mutex> lk(m);
+                cv_go.wait(lk, [&] { return quit || (round != seen && id < active); });
+                if (quit)
+                    return;
+                seen = round;
+                j = job;
+            }
+            j(id);
+            {
+                std::unique_lock<std::mutex> lk(m);
+                if (--pending == 0)
+                    cv_done.notify_all();
+            }
+        }
+    }
+
+public:
+    void run(size_t n, std::function<void(size_t)> f)
+    {
+        while (th.size() < n) {
+            size_t id = th.size();
+            th.emplace_back([this, id] { loop(id); });
+        }
+        std::unique_lock<std::mutex> lk(m);
+        job = f;
+        active = n;
+        pending = n;
+        round++;
+        cv_go.notify_all();
+        cv_done.wait(lk, [&] { return pending == 0; });
+        active = 0;
+    }
+    ~Workers()
+    {
+        {
+            std::unique_lock<std::mutex> lk(m);
+            quit = true;
+            cv_go.notify_all();
+        }
+        for (auto &x : th)
+            x.join();
+    }
+};
+Workers &workers()
+{
+    static Workers w;
+    return w;
+}
 
 Val exec_stmt(const Node &n, std::vector<Val> &regs)
 {
@@ -143,28 +213,10 @@ std::string run_request(const std::string &line)
     std::vector<std::string> pool0, rc0, pool1, rc1;
     snapshot(pool0, rc0);
 
-    // ---- concurrent phase
+    // ---- concurrent phase (persistent worker threads, released together from a barrier)
     const size_t T = lists.size();
     std::vector<std::vector<std::string>> thr(T);
-    {
-        std::atomic<size_t> arrived{0};
-        std::atomic<bool> go{false};
-        std::vector<std::thread> th;
-        th.reserve(T);
-        for (size_t t = 0; t < T; t++) {
-            th.emplace_back([&, t]() {
-                arrived.fetch_add(1);
-                while (!go.load(std::memory_order_acquire))
-                    std::this_thread::yield();
-                run_list(lists[t], pool, thr[t]);
-            });
-        }
-        while (arrived.load() < T)
-            std::this_thread::yield();
-        go.store(true, std::memory_order_release);
-        for (auto &x : th)
-            x.join();
-    }
+    workers().run(T, [&](size_t t) { run_list(lists[t], pool, thr[t]); });
     snapshot(pool1, rc1);
 
     // ---- sequential re-execution
